@@ -232,6 +232,9 @@ def configs(tier):
     switches = list(itertools.product((False, True), repeat=4))
     for ind, (mode, closure) in itertools.product(switches, (("ack", False), ("unack", True), ("unack", False))):
         out.append(dict(ind=ind, mode=mode, closure=closure, size=L + 1, seg=L, link="ff"))
+    # destination given as a directory / pre-existing file: the indication must carry the names of the PDU
+    for shape, (mode, closure) in itertools.product(("dir", "existing", "dir_existing"), (("ack", False), ("unack", True))):
+        out.append(dict(shape=shape, mode=mode, closure=closure, size=L + 1, seg=L, link="ff"))
     for msgs, (mode, closure), md in itertools.product(("none", "plain", "orig", "proxy", "both", "all"), (("ack", False), ("unack", True)), (False, True)):
         out.append(dict(msgs=msgs, mode=mode, closure=closure, size=0 if md else L + 1, md_only=md, seg=L, link="ff"))
     some = [(True, True, True, True), (False, False, False, False), (True, False, True, False), (False, True, False, True)]
